@@ -168,6 +168,47 @@ extern const NoLabel bg_zero_NoLabel;
 extern const EdgeMultiplicity bg_zero_uint;
 extern const bg_real bg_zero_real;
 typedef struct { bg_bool hasP, hasQ; bg_size restCount; } bg_set_u;
+/* ---------------------------------------------------------------- binary edge-list files (C14, C15)
+   The file on disk is one ghost object.  Record level (loaders, writers): the content is a sequence of
+   complete records {source,destination}, classified at the observation points, followed by `tail` bytes of
+   a record cut short (tail < BG_REC_BYTES).  Byte level (-DBG_STREAM_BYTES, the codec units): the next
+   eight bytes to read / the last eight bytes written. */
+#define BG_REC_BYTES 8 /* two 32-bit vertex indices; unlabelled records */
+typedef struct {
+  bg_bool openable;         /* can the file be opened (either direction)            */
+  bg_size nPQ, nQP, nOther; /* complete records (G_P,G_Q), (G_Q,G_P) [G_P != G_Q], others */
+  bg_size tail;             /* bytes of a final, incomplete record                  */
+  bg_size otherBound;       /* every vertex index in an `other` record is < otherBound */
+  bg_size bytes;            /* file length                                          */
+} bg_file_t;
+extern bg_file_t bg_file;
+typedef struct { bg_bool fail; bg_bool open; } bg_ios;
+typedef struct {
+  bg_ios base;
+  bg_size nPQ, nQP, nOther, tail; /* not yet read */
+  bg_size otherBound;
+  bg_bool inrec;            /* the first field of a complete record has been read  */
+  VertexIndex second;       /* ... and this is its second field                    */
+  unsigned char next[8];    /* byte level: the bytes ahead                         */
+  bg_size avail;            /* byte level: how many are left                       */
+} bg_ifstream;
+typedef struct {
+  bg_ios base;
+  bg_bool inrec;            /* the first field of a record has been written        */
+  VertexIndex first;
+  unsigned char last[8];    /* byte level: the bytes written most recently         */
+  bg_size lastn;
+} bg_ofstream;
+typedef struct { char unused; } bg_string;
+#define BG_IOS_IN 8
+#define BG_IOS_OUT 16
+#define BG_IOS_BINARY 4
+extern bg_bool bg_SYSTEM_IS_BIG_ENDIAN;
+#ifndef BG_HOST_BIG_ENDIAN
+#define BG_HOST_BIG_ENDIAN 0 /* the machine model of the unit (goto-cc --big-endian sets 1) */
+#endif
+#define BG_FILE_WF(f) ((f).nPQ < BG_CAP && (f).nQP < BG_CAP && (f).nOther < BG_CAP && (f).tail < BG_REC_BYTES && \
+                       (G_P != G_Q || (f).nQP == 0) && (f).otherBound <= ((bg_size)1 << 32))
 /* std::unordered_set<VertexIndex>: membership of the observation points, number of other members */
 typedef struct { bg_bool hasP, hasQ; bg_size restCount; bg_size restBound; /* every other member < restBound */ } bg_uset_u;
 /* its iterator: the elements not yet passed (the one under the cursor included); order unspecified */
